@@ -125,6 +125,10 @@ impl WorldA {
                 return Op::new(K_SUBMITHUGE, i as u64, d as u64, *rng.pick(&roomy) as u64, rng.below(460_000));
             }
         }
+        if self.cfg.get("lateconn") == 1 && self.late_done & (1 << i) == 0 && rng.chance(1, 40) {
+            self.late_done |= 1 << i;
+            return Op::new(K_API, 6, i as u64, 0, 0);
+        }
         if matches!(self.fam, Fam::Api) && self.cfg.get("evlazy") == 1 && rng.chance(1, 60) {
             return Op::new(K_CHURN, i as u64, rng.below(101), 0, 0);
         }
